@@ -190,7 +190,11 @@ func dumpPaths(p *Program, spec string, depth int, pure bool) {
 		fmt.Println("not found")
 		return
 	}
-	paths, err := Enumerate(fn, SymConfig{Prog: p, MaxDepth: depth, Collapse: true, CollapsePure: pure})
+	mv := 0
+	if os.Getenv("HIDI_DUMPVISITS") != "" {
+		fmt.Sscan(os.Getenv("HIDI_DUMPVISITS"), &mv)
+	}
+	paths, err := Enumerate(fn, SymConfig{Prog: p, MaxDepth: depth, Collapse: true, CollapsePure: pure, MaxVisits: mv})
 	fmt.Printf("%s: %d paths err=%v\n", fn, len(paths), err)
 	var ss []string
 	for _, pa := range paths {
@@ -211,8 +215,12 @@ func dumpPaths(p *Program, spec string, depth int, pure bool) {
 		ss = append(ss, "IF "+strings.Join(as, " && ")+"\n   DO "+strings.Join(es, ";\n      ")+"\n   END "+pa.End)
 	}
 	sort.Strings(ss)
-	for i, s := range ss {
-		if i > 60 {
+	n := 0
+	for _, s := range ss {
+		if g := os.Getenv("HIDI_DUMPGREP"); g != "" && !strings.Contains(s, g) {
+			continue
+		}
+		if n++; n > 60 {
 			break
 		}
 		fmt.Println(s)
